@@ -92,6 +92,14 @@ def mss_sigalg(dist, rvs, about=None, rv_mode=None):
         else:
             partition[cd].extend(matches)
 
+    # Stored outcomes whose value of `rvs` has probability zero (dense
+    # distributions) have no conditional distribution: they form a cell of
+    # their own, so that the cells cover every stored outcome.
+    placed = {o for cell in partition.values() for o in cell}
+    rest = [o for o in dist.outcomes if o not in placed]
+    if rest:
+        partition[None].extend(rest)
+
     mss_sa = sigma_algebra(map(frozenset, partition.values()))
 
     return mss_sa
